@@ -449,7 +449,13 @@ impl<W: Write + io::Seek> ZipWriter<W> {
             file.uncompressed_size = self.stats.bytes_written;
 
             let file_end = writer.stream_position()?;
-            file.compressed_size = file_end - self.stats.start;
+            // after an earlier I/O failure the stream may be positioned before the entry's data
+            file.compressed_size = file_end.checked_sub(self.stats.start).ok_or_else(|| {
+                io::Error::new(
+                    io::ErrorKind::Other,
+                    "Stream position is before the start of the file data",
+                )
+            })?;
 
             update_local_file_header(writer, file)?;
             writer.seek(io::SeekFrom::Start(file_end))?;
